@@ -41,7 +41,7 @@ def run(chk):
         for i, o in enumerate(ORDERS4):
             for part in range(2):
                 tasks.append(dict(n=4, order=o, via=ORDERS4[(i + 5) % 24] if i % 4 == 0 else None,
-                                  us_stride=2, us_offset=part))
+                                  us_stride=32, us_offset=part + 2 * (i % 16)))
     for t in tasks:
         t.update(shard=chk.shard('sw_c03_%d' % tid), tid=tid, seed=chk.seed + tid)
         tid += 1
